@@ -597,6 +597,13 @@ class Unsupported(Exception):
     pass
 
 
+class Narrowing(Unsupported):
+    """The ordering is derived from a difference of operands wider than int."""
+
+
+_TIES = []      # pairs of operand keys taken as equal while a comparator is walked (lexicographic orders)
+
+
 def eval_sign(t, a_key, b_key, ordering):
     """Abstractly evaluates integer expression tree t where the only unknowns
     are comparisons between operands keyed a_key and b_key; `ordering` is
@@ -621,6 +628,8 @@ def eval_sign(t, a_key, b_key, ordering):
         op = t["op"]
         if op in ("<", ">", "<=", ">=", "==", "!="):
             lk, rk = key(t["l"]), key(t["r"])
+            if lk != rk and any({lk, rk} == set(p) for p in _TIES):
+                return int(op in ("<=", ">=", "=="))
             if {lk, rk} == {a_key, b_key} and lk != rk:
                 rel = ordering if lk == a_key else {"<": ">", ">": "<", "=": "="}[ordering]
                 return int({"<": rel == "<", ">": rel == ">", "<=": rel in "<=", ">=": rel in ">=",
@@ -628,6 +637,17 @@ def eval_sign(t, a_key, b_key, ordering):
             l = eval_sign(t["l"], a_key, b_key, ordering)
             r = eval_sign(t["r"], a_key, b_key, ordering)
             return int({"<": l < r, ">": l > r, "<=": l <= r, ">=": l >= r, "==": l == r, "!=": l != r}[op])
+        if op == "-":
+            lt_, rt_ = strip_casts(t["l"]), strip_casts(t["r"])
+            lk, rk = key(lt_), key(rt_)
+            if lk != rk and any({lk, rk} == set(p) for p in _TIES):
+                return 0
+            if {lk, rk} == {a_key, b_key} and lk != rk:
+                ty = {str(lt_.get("t")), str(rt_.get("t"))} if isinstance(lt_, dict) and isinstance(rt_, dict) else {None}
+                if not ty <= {"int", "short", "signed char", "char"}:
+                    raise Narrowing("the difference %s of operands of type %s does not order them" % (show(t), sorted(map(str, ty))))
+                rel = ordering if lk == a_key else {"<": ">", ">": "<", "=": "="}[ordering]
+                return {"<": -1, "=": 0, ">": 1}[rel]
         l = eval_sign(t["l"], a_key, b_key, ordering)
         r = eval_sign(t["r"], a_key, b_key, ordering)
         if op == "+":
@@ -673,7 +693,15 @@ def _canon(a):
     return a
 
 
-def cfg_sign_triple(fn, a_key, b_key, tie_vars=()):
+def cfg_sign_triple(fn, a_key, b_key, tie_vars=(), ties=()):
+    _TIES[:] = list(ties)
+    try:
+        return _cfg_sign_triple(fn, a_key, b_key, tie_vars)
+    finally:
+        _TIES[:] = []
+
+
+def _cfg_sign_triple(fn, a_key, b_key, tie_vars=()):
     """T8 for comparator *functions*: walks the CFG under each ordering of the
     two operands.  Branches that compare the operands are decided by the
     ordering; locals hold integer constants (a local assigned from a call or
